@@ -9,6 +9,8 @@
 import NdnVerif.C13.RoundTrip
 import NdnVerif.C13.LoopU
 import NdnVerif.C13.LoopO
+import NdnVerif.C13.UnknownSkip
+import NdnVerif.C13.UnknownCritical
 import NdnVerif.Gen.C13Schemas
 namespace Ndn.C13
 
@@ -53,6 +55,48 @@ theorem parse_encode (s : Schema) (v : Vals) (ic : Bool)
 theorem generated_models_roundtrip (s : Schema) (hs : s ∈ Ndn.Gen.C13.allSchemas) (v : Vals) (ic : Bool)
     (hv : validVs s.fields v = true) : ∃ a, parse s ic (encode s v) = .ok v a :=
   parse_encode s v ic (all_generated_schemas_wf s hs) hv
+
+/-! ## "an unrecognised non-critical element inserted at any position … is skipped and every other
+       field still decodes unchanged" -/
+
+/-- `insAt s.fields v sel k junk` is the encoding of `v` with the extra element inserted at item
+    boundary `k` of the nesting level reached through the struct items `sel` (every enclosing
+    length recomputed) — the same function the correspondence harness checks against the real
+    code.  For ANY such position, any depth, ordered and unordered models: if the element's type
+    number is unknown to the model (at every level) and the caller tolerates it (non-critical, or
+    `ignoreCritical`), the decoder returns exactly the original value. -/
+theorem unknown_noncritical_skipped (s : Schema) (v : Vals) (ic : Bool) (sel : List Nat) (k jt : Nat)
+    (jbody b : Bytes)
+    (hwf : wfSchema s = true) (hv : validVs s.fields v = true)
+    (hjt : jt < 2 ^ 64) (hjb : jbody.length < maxLen)
+    (hunk : (fieldsTypes s.fields).contains jt = false)
+    (htol : ic = true ∨ critical jt = false)
+    (hins : insAt s.fields v sel k (tlv jt jbody) = some b) :
+    ∃ a, parse s ic b = .ok v a :=
+  unknown_noncritical_skipped' s v ic sel k jt jbody b hwf hv hjt hjb hunk htol hins
+
+/-! ## "an unrecognised critical element causes rejection unless the caller asked to ignore it" -/
+
+/-- the same insertion with a CRITICAL unknown type number (`typ ≤ 31` or odd) and
+    `ignoreCritical = false`: the decoder returns an error — at any position, any nesting depth,
+    ordered and unordered models.  With `ignoreCritical = true` the element is skipped
+    (`unknown_noncritical_skipped` with `ic = true`). -/
+theorem unknown_critical_rejected_unless_ignored (s : Schema) (v : Vals) (sel : List Nat) (k jt : Nat)
+    (jbody b : Bytes)
+    (hwf : wfSchema s = true) (hv : validVs s.fields v = true)
+    (hjt : jt < 2 ^ 64) (hjb : jbody.length < maxLen)
+    (hunk : (fieldsTypes s.fields).contains jt = false)
+    (hcrit : critical jt = true)
+    (hins : insAt s.fields v sel k (tlv jt jbody) = some b) :
+    (∃ a, parse s false b = .err a) ∧ (∃ a, parse s true b = .ok v a) :=
+  ⟨unknown_critical_rejected' s v sel k jt jbody b hwf hv hjt hjb hunk hcrit hins,
+   unknown_noncritical_skipped' s v true sel k jt jbody b hwf hv hjt hjb hunk (Or.inl rfl) hins⟩
+
+/-- the critical-bit rule the property names: `typ ≤ 31` or odd -/
+theorem critical_rule (t : Nat) : critical t = true ↔ (t ≤ 31 ∨ t % 2 = 1) := by
+  simp [critical]
+
+example : critical 31 = true ∧ critical 32 = false ∧ critical 33 = true ∧ critical 240 = false := by decide
 
 -- non-vacuity: a nested ordered struct, a sequence of structs, a map, a bool and an optional time
 example : wfFields exFields = true ∧ validVs exFields exVal = true := by decide
